@@ -26,85 +26,142 @@ static void put(vh::Out& o, const Vector& v)
 }
 // `hist <op> ...`: every matrix / vector argument is followed by `k step_1 .. step_k`, a call history that is applied
 // to the freshly constructed object before the operation sees it (grammar and reference semantics: checks/C04.py).
+// The operation is called on the very object that went through the history (no copy in between).
+// `life ...`: several live objects, member calls on them one after the other; an argument `@k` is live object k itself.
 static bool g_hist = false;
-static Matrix rd_mat(vh::Reader& r)
+static std::vector<std::unique_ptr<Matrix>> g_ms, g_mtmp;	// live matrices of a `life` case; operands built for one call
+static std::vector<std::unique_ptr<Vector>> g_vs, g_vtmp;
+static long obj_ref(vh::Reader& r)
 {
-	Matrix fresh(r.table());
-	if(!g_hist)
-		return fresh;
-	std::unique_ptr<Matrix> A(new Matrix(fresh));
-	long k = r.integer();
-	for(long s = 0; s < k; s++)
-	{
-		std::string st = r.word();
-		if(st == "rs") { long p = r.integer(), q = r.integer(); A->Resize((int) p, (int) q); }
-		else if(st == "as") { long p = r.integer(), q = r.integer(); double e = r.num(); A->Assign((int) p, (int) q, e); }
-		else if(st == "dr") { long i = r.integer(); A->Delete_Row((unsigned int) i); }
-		else if(st == "dc") { long i = r.integer(); A->Delete_Column((unsigned int) i); }
-		else if(st == "st") { long i = r.integer(), j = r.integer(); double x = r.num(); (*A)[(unsigned int) i][j] = x; }
-		else if(st == "cp") { A.reset(new Matrix(*A)); }
-		else if(st == "eq")
-		{
-			// assignment into objects that had another (larger, smaller) shape before
-			Matrix B(A->Rows() + 1, A->Columns() + 2, 7.0);
-			B = *A;
-			Matrix C(1, 1, 3.0);
-			C  = B;
-			*A = C;
-		}
-		else if(st == "se") { *A = *A; }
-		else if(st == "pa") { Matrix B(r.table()); *A += B; }
-		else if(st == "ma") { Matrix B(r.table()); *A -= B; }
-		else if(st == "sa") { *A += *A; }
-		else if(st == "ss") { *A -= *A; }
-		else if(st == "pl") { Matrix B(r.table()); *A = *A + B; }
-		else if(st == "mi") { Matrix B(r.table()); *A = *A - B; }
-		else if(st == "tr") { *A = A->Transpose(); }
-		else if(st == "ms") { double x = r.num(); *A = *A * x; }
-		else if(st == "dv") { double x = r.num(); *A = *A / x; }
-		else if(st == "z") { long p = r.integer(), q = r.integer(); *A = Matrix((unsigned int) p, (unsigned int) q); }
-		else if(st == "df") { *A = Matrix(); }
-		else { std::fprintf(stderr, "unknown step\n"); std::abort(); }
-	}
-	return *A;
+	if(r.i < r.t.size() && r.t[r.i].size() > 1 && r.t[r.i][0] == '@')
+		return std::strtol(r.word().c_str() + 1, nullptr, 10);
+	return -1;
 }
-static Vector rd_vec(vh::Reader& r)
+static Matrix& live_mat(long k)
 {
-	Vector fresh(r.list());
-	if(!g_hist)
-		return fresh;
-	std::unique_ptr<Vector> v(new Vector(fresh));
-	long k = r.integer();
-	for(long s = 0; s < k; s++)
+	if(k < 0 || k >= (long) g_ms.size()) { std::fprintf(stderr, "harness: no such object\n"); _exit(77); }
+	return *g_ms[k];
+}
+static Vector& live_vec(long k)
+{
+	if(k < 0 || k >= (long) g_vs.size()) { std::fprintf(stderr, "harness: no such object\n"); _exit(77); }
+	return *g_vs[k];
+}
+// operand of a step: a matrix built for the call, or a live object
+static Matrix& step_mat(vh::Reader& r)
+{
+	long k = obj_ref(r);
+	if(k >= 0)
+		return live_mat(k);
+	g_mtmp.emplace_back(new Matrix(r.table()));
+	return *g_mtmp.back();
+}
+static Vector& step_vec(vh::Reader& r)
+{
+	long k = obj_ref(r);
+	if(k >= 0)
+		return live_vec(k);
+	g_vtmp.emplace_back(new Vector(r.list()));
+	return *g_vtmp.back();
+}
+// one call that changes the object held by A
+static void mat_step(std::unique_ptr<Matrix>& A, vh::Reader& r)
+{
+	std::string st = r.word();
+	if(st == "rs") { long p = r.integer(), q = r.integer(); A->Resize((int) p, (int) q); }
+	else if(st == "as") { long p = r.integer(), q = r.integer(); double e = r.num(); A->Assign((int) p, (int) q, e); }
+	else if(st == "dr") { long i = r.integer(); A->Delete_Row((unsigned int) i); }
+	else if(st == "dc") { long i = r.integer(); A->Delete_Column((unsigned int) i); }
+	else if(st == "st") { long i = r.integer(), j = r.integer(); double x = r.num(); (*A)[(unsigned int) i][j] = x; }
+	else if(st == "cp") { A.reset(new Matrix(*A)); }
+	else if(st == "eq")
 	{
-		std::string st = r.word();
-		if(st == "rs") { long p = r.integer(); v->Resize((unsigned int) p); }
-		else if(st == "as") { long p = r.integer(); double e = r.num(); v->Assign((unsigned int) p, e); }
-		else if(st == "st") { long i = r.integer(); double x = r.num(); (*v)[(unsigned int) i] = x; }
-		else if(st == "cp") { v.reset(new Vector(*v)); }
-		else if(st == "eq")
-		{
-			Vector b(v->Size() + 3, 7.0);
-			b = *v;
-			Vector c(1, 3.0);
-			c  = b;
-			*v = c;
-		}
-		else if(st == "se") { *v = *v; }
-		else if(st == "pa") { Vector b(r.list()); *v += b; }
-		else if(st == "ma") { Vector b(r.list()); *v -= b; }
-		else if(st == "sa") { *v += *v; }
-		else if(st == "ss") { *v -= *v; }
-		else if(st == "pl") { Vector b(r.list()); *v = *v + b; }
-		else if(st == "mi") { Vector b(r.list()); *v = *v - b; }
-		else if(st == "ms") { double x = r.num(); *v = *v * x; }
-		else if(st == "sm") { double x = r.num(); *v = x * *v; }
-		else if(st == "dv") { double x = r.num(); *v = *v / x; }
-		else if(st == "z") { long p = r.integer(); *v = Vector((unsigned int) p); }
-		else if(st == "df") { *v = Vector(); }
-		else { std::fprintf(stderr, "unknown step\n"); std::abort(); }
+		// assignment into objects that had another (larger, smaller) shape before
+		Matrix B(A->Rows() + 1, A->Columns() + 2, 7.0);
+		B = *A;
+		Matrix C(1, 1, 3.0);
+		C  = B;
+		*A = C;
 	}
-	return *v;
+	else if(st == "se") { *A = *A; }
+	else if(st == "af") { Matrix& B = step_mat(r); *A = B; }
+	else if(st == "pa") { Matrix& B = step_mat(r); *A += B; }
+	else if(st == "ma") { Matrix& B = step_mat(r); *A -= B; }
+	else if(st == "sa") { *A += *A; }
+	else if(st == "ss") { *A -= *A; }
+	else if(st == "pl") { Matrix& B = step_mat(r); *A = *A + B; }
+	else if(st == "mi") { Matrix& B = step_mat(r); *A = *A - B; }
+	else if(st == "tr") { *A = A->Transpose(); }
+	else if(st == "ms") { double x = r.num(); *A = *A * x; }
+	else if(st == "dv") { double x = r.num(); *A = *A / x; }
+	else if(st == "z") { long p = r.integer(), q = r.integer(); *A = Matrix((unsigned int) p, (unsigned int) q); }
+	else if(st == "df") { *A = Matrix(); }
+	else { std::fprintf(stderr, "unknown step\n"); std::abort(); }
+}
+static void vec_step(std::unique_ptr<Vector>& v, vh::Reader& r)
+{
+	std::string st = r.word();
+	if(st == "rs") { long p = r.integer(); v->Resize((unsigned int) p); }
+	else if(st == "as") { long p = r.integer(); double e = r.num(); v->Assign((unsigned int) p, e); }
+	else if(st == "st") { long i = r.integer(); double x = r.num(); (*v)[(unsigned int) i] = x; }
+	else if(st == "cp") { v.reset(new Vector(*v)); }
+	else if(st == "eq")
+	{
+		Vector b(v->Size() + 3, 7.0);
+		b = *v;
+		Vector c(1, 3.0);
+		c  = b;
+		*v = c;
+	}
+	else if(st == "se") { *v = *v; }
+	else if(st == "af") { Vector& b = step_vec(r); *v = b; }
+	else if(st == "pa") { Vector& b = step_vec(r); *v += b; }
+	else if(st == "ma") { Vector& b = step_vec(r); *v -= b; }
+	else if(st == "sa") { *v += *v; }
+	else if(st == "ss") { *v -= *v; }
+	else if(st == "pl") { Vector& b = step_vec(r); *v = *v + b; }
+	else if(st == "mi") { Vector& b = step_vec(r); *v = *v - b; }
+	else if(st == "ms") { double x = r.num(); *v = *v * x; }
+	else if(st == "sm") { double x = r.num(); *v = x * *v; }
+	else if(st == "dv") { double x = r.num(); *v = *v / x; }
+	else if(st == "z") { long p = r.integer(); *v = Vector((unsigned int) p); }
+	else if(st == "df") { *v = Vector(); }
+	else { std::fprintf(stderr, "unknown step\n"); std::abort(); }
+}
+// a matrix / vector argument of an operation: the object itself is handed on (live object, or the object the history ran on)
+static Matrix& rd_mat(vh::Reader& r)
+{
+	long k = obj_ref(r);
+	if(k >= 0)
+		return live_mat(k);
+	g_mtmp.emplace_back(new Matrix(r.table()));
+	size_t at = g_mtmp.size() - 1;
+	if(g_hist)
+	{
+		std::unique_ptr<Matrix> A(new Matrix(*g_mtmp[at]));
+		long n = r.integer();
+		for(long s = 0; s < n; s++)
+			mat_step(A, r);
+		g_mtmp[at] = std::move(A);
+	}
+	return *g_mtmp[at];
+}
+static Vector& rd_vec(vh::Reader& r)
+{
+	long k = obj_ref(r);
+	if(k >= 0)
+		return live_vec(k);
+	g_vtmp.emplace_back(new Vector(r.list()));
+	size_t at = g_vtmp.size() - 1;
+	if(g_hist)
+	{
+		std::unique_ptr<Vector> v(new Vector(*g_vtmp[at]));
+		long n = r.integer();
+		for(long s = 0; s < n; s++)
+			vec_step(v, r);
+		g_vtmp[at] = std::move(v);
+	}
+	return *g_vtmp[at];
 }
 static Matrix rd_block(vh::Reader& r)
 {
@@ -130,61 +187,56 @@ static Matrix row_matrix(const Vector& v)
 	return Matrix(std::vector<std::vector<double>> {e});
 }
 
-static void handler(vh::Reader& r, vh::Out& o)
+static void dispatch(const std::string& op, vh::Reader& r, vh::Out& o)
 {
-	std::string op = r.word();
-	g_hist		   = false;
-	if(op == "hist")
-	{
-		g_hist = true;
-		op	   = r.word();
-	}
-	if(op == "m_plus") { Matrix A = rd_mat(r), B = rd_mat(r); put(o, A.Plus(B)); }
-	else if(op == "m_minus") { Matrix A = rd_mat(r), B = rd_mat(r); put(o, A.Minus(B)); }
-	else if(op == "m_op_plus") { Matrix A = rd_mat(r), B = rd_mat(r); put(o, A + B); }
-	else if(op == "m_op_minus") { Matrix A = rd_mat(r), B = rd_mat(r); put(o, A - B); }
-	else if(op == "m_add_assign") { Matrix A = rd_mat(r), B = rd_mat(r); A += B; put(o, A); }
-	else if(op == "m_sub_assign") { Matrix A = rd_mat(r), B = rd_mat(r); A -= B; put(o, A); }
-	else if(op == "m_prod") { Matrix A = rd_mat(r), B = rd_mat(r); put(o, A.Product(B)); }
-	else if(op == "m_op_mul") { Matrix A = rd_mat(r), B = rd_mat(r); put(o, A * B); }
-	else if(op == "m_prod_s") { Matrix A = rd_mat(r); double s = r.num(); put(o, A.Product(s)); }
-	else if(op == "m_op_mul_s") { Matrix A = rd_mat(r); double s = r.num(); put(o, A * s); }
-	else if(op == "s_mul_m") { double s = r.num(); Matrix A = rd_mat(r); put(o, s * A); }
-	else if(op == "m_div") { Matrix A = rd_mat(r); double s = r.num(); put(o, A.Division(s)); }
-	else if(op == "m_op_div") { Matrix A = rd_mat(r); double s = r.num(); put(o, A / s); }
-	else if(op == "m_prod_v") { Matrix A = rd_mat(r); Vector v = rd_vec(r); put(o, A.Product(v)); }
-	else if(op == "m_op_mul_v") { Matrix A = rd_mat(r); Vector v = rd_vec(r); put(o, A * v); }
-	else if(op == "v_mul_m") { Vector v = rd_vec(r); Matrix A = rd_mat(r); put(o, v * A); }
-	else if(op == "outer") { Vector u = rd_vec(r), v = rd_vec(r); put(o, Outer_Vector_Product(u, v)); }
-	else if(op == "v_dot") { Vector u = rd_vec(r), v = rd_vec(r); o.f(u.Dot(v)); }
-	else if(op == "v_op_mul") { Vector u = rd_vec(r), v = rd_vec(r); o.f(u * v); }
-	else if(op == "v_cross") { Vector u = rd_vec(r), v = rd_vec(r); put(o, u.Cross(v)); }
-	else if(op == "v_norm") { Vector u = rd_vec(r); o.f(u.Norm()); }
-	else if(op == "v_add") { Vector u = rd_vec(r), v = rd_vec(r); put(o, u + v); }
-	else if(op == "v_sub") { Vector u = rd_vec(r), v = rd_vec(r); put(o, u - v); }
-	else if(op == "v_add_assign") { Vector u = rd_vec(r), v = rd_vec(r); u += v; put(o, u); }
-	else if(op == "v_sub_assign") { Vector u = rd_vec(r), v = rd_vec(r); u -= v; put(o, u); }
-	else if(op == "v_scale") { Vector v = rd_vec(r); double s = r.num(); put(o, v * s); }
-	else if(op == "v_div") { Vector v = rd_vec(r); double s = r.num(); put(o, v / s); }
-	else if(op == "s_mul_v") { double s = r.num(); Vector v = rd_vec(r); put(o, s * v); }
-	else if(op == "v_eq") { Vector u = rd_vec(r), v = rd_vec(r); o.i((u == v) ? 1 : 0); }
-	else if(op == "transpose") { Matrix A = rd_mat(r); put(o, A.Transpose()); }
-	else if(op == "trace") { Matrix A = rd_mat(r); o.f(A.Trace()); }
-	else if(op == "m_norm") { Matrix A = rd_mat(r); o.f(A.Norm()); }
-	else if(op == "square") { Matrix A = rd_mat(r); o.i(A.Square() ? 1 : 0); }
-	else if(op == "symmetric") { Matrix A = rd_mat(r); o.i(A.Symmetric() ? 1 : 0); }
-	else if(op == "antisymmetric") { Matrix A = rd_mat(r); o.i(A.Antisymmetric() ? 1 : 0); }
-	else if(op == "diagonal") { Matrix A = rd_mat(r); o.i(A.Diagonal() ? 1 : 0); }
-	else if(op == "sub_matrix") { Matrix A = rd_mat(r); long i = r.integer(), j = r.integer(); put(o, A.Sub_Matrix((int) i, (int) j)); }
-	else if(op == "delete_row") { Matrix A = rd_mat(r); long i = r.integer(); A.Delete_Row((unsigned int) i); put(o, A); }
-	else if(op == "delete_column") { Matrix A = rd_mat(r); long i = r.integer(); A.Delete_Column((unsigned int) i); put(o, A); }
-	else if(op == "return_row") { Matrix A = rd_mat(r); long i = r.integer(); put(o, A.Return_Row((unsigned int) i)); }
-	else if(op == "return_column") { Matrix A = rd_mat(r); long i = r.integer(); put(o, A.Return_Column((unsigned int) i)); }
-	else if(op == "m_eq") { Matrix A = rd_mat(r), B = rd_mat(r); o.i((A == B) ? 1 : 0); }
-	else if(op == "m_at") { Matrix A = rd_mat(r); long i = r.integer(), j = r.integer(); o.f(A[(unsigned int) i][j]); }
-	else if(op == "v_at") { Vector v = rd_vec(r); long i = r.integer(); o.f(v[(unsigned int) i]); }
-	else if(op == "m_show") { Matrix A = rd_mat(r); put(o, A); }
-	else if(op == "v_show") { Vector v = rd_vec(r); put(o, v); }
+	if(op == "m_plus") { Matrix &A = rd_mat(r), &B = rd_mat(r); put(o, A.Plus(B)); }
+	else if(op == "m_minus") { Matrix &A = rd_mat(r), &B = rd_mat(r); put(o, A.Minus(B)); }
+	else if(op == "m_op_plus") { Matrix &A = rd_mat(r), &B = rd_mat(r); put(o, A + B); }
+	else if(op == "m_op_minus") { Matrix &A = rd_mat(r), &B = rd_mat(r); put(o, A - B); }
+	else if(op == "m_add_assign") { Matrix &A = rd_mat(r), &B = rd_mat(r); A += B; put(o, A); }
+	else if(op == "m_sub_assign") { Matrix &A = rd_mat(r), &B = rd_mat(r); A -= B; put(o, A); }
+	else if(op == "m_prod") { Matrix &A = rd_mat(r), &B = rd_mat(r); put(o, A.Product(B)); }
+	else if(op == "m_op_mul") { Matrix &A = rd_mat(r), &B = rd_mat(r); put(o, A * B); }
+	else if(op == "m_prod_s") { Matrix& A = rd_mat(r); double s = r.num(); put(o, A.Product(s)); }
+	else if(op == "m_op_mul_s") { Matrix& A = rd_mat(r); double s = r.num(); put(o, A * s); }
+	else if(op == "s_mul_m") { double s = r.num(); Matrix& A = rd_mat(r); put(o, s * A); }
+	else if(op == "m_div") { Matrix& A = rd_mat(r); double s = r.num(); put(o, A.Division(s)); }
+	else if(op == "m_op_div") { Matrix& A = rd_mat(r); double s = r.num(); put(o, A / s); }
+	else if(op == "m_prod_v") { Matrix& A = rd_mat(r); Vector& v = rd_vec(r); put(o, A.Product(v)); }
+	else if(op == "m_op_mul_v") { Matrix& A = rd_mat(r); Vector& v = rd_vec(r); put(o, A * v); }
+	else if(op == "v_mul_m") { Vector& v = rd_vec(r); Matrix& A = rd_mat(r); put(o, v * A); }
+	else if(op == "outer") { Vector &u = rd_vec(r), &v = rd_vec(r); put(o, Outer_Vector_Product(u, v)); }
+	else if(op == "v_dot") { Vector &u = rd_vec(r), &v = rd_vec(r); o.f(u.Dot(v)); }
+	else if(op == "v_op_mul") { Vector &u = rd_vec(r), &v = rd_vec(r); o.f(u * v); }
+	else if(op == "v_cross") { Vector &u = rd_vec(r), &v = rd_vec(r); put(o, u.Cross(v)); }
+	else if(op == "v_norm") { Vector& u = rd_vec(r); o.f(u.Norm()); }
+	else if(op == "v_add") { Vector &u = rd_vec(r), &v = rd_vec(r); put(o, u + v); }
+	else if(op == "v_sub") { Vector &u = rd_vec(r), &v = rd_vec(r); put(o, u - v); }
+	else if(op == "v_add_assign") { Vector &u = rd_vec(r), &v = rd_vec(r); u += v; put(o, u); }
+	else if(op == "v_sub_assign") { Vector &u = rd_vec(r), &v = rd_vec(r); u -= v; put(o, u); }
+	else if(op == "v_scale") { Vector& v = rd_vec(r); double s = r.num(); put(o, v * s); }
+	else if(op == "v_div") { Vector& v = rd_vec(r); double s = r.num(); put(o, v / s); }
+	else if(op == "s_mul_v") { double s = r.num(); Vector& v = rd_vec(r); put(o, s * v); }
+	else if(op == "v_eq") { Vector &u = rd_vec(r), &v = rd_vec(r); o.i((u == v) ? 1 : 0); }
+	else if(op == "transpose") { Matrix& A = rd_mat(r); put(o, A.Transpose()); }
+	else if(op == "trace") { Matrix& A = rd_mat(r); o.f(A.Trace()); }
+	else if(op == "m_norm") { Matrix& A = rd_mat(r); o.f(A.Norm()); }
+	else if(op == "square") { Matrix& A = rd_mat(r); o.i(A.Square() ? 1 : 0); }
+	else if(op == "symmetric") { Matrix& A = rd_mat(r); o.i(A.Symmetric() ? 1 : 0); }
+	else if(op == "antisymmetric") { Matrix& A = rd_mat(r); o.i(A.Antisymmetric() ? 1 : 0); }
+	else if(op == "diagonal") { Matrix& A = rd_mat(r); o.i(A.Diagonal() ? 1 : 0); }
+	else if(op == "sub_matrix") { Matrix& A = rd_mat(r); long i = r.integer(), j = r.integer(); put(o, A.Sub_Matrix((int) i, (int) j)); }
+	else if(op == "delete_row") { Matrix& A = rd_mat(r); long i = r.integer(); A.Delete_Row((unsigned int) i); put(o, A); }
+	else if(op == "delete_column") { Matrix& A = rd_mat(r); long i = r.integer(); A.Delete_Column((unsigned int) i); put(o, A); }
+	else if(op == "return_row") { Matrix& A = rd_mat(r); long i = r.integer(); put(o, A.Return_Row((unsigned int) i)); }
+	else if(op == "return_column") { Matrix& A = rd_mat(r); long i = r.integer(); put(o, A.Return_Column((unsigned int) i)); }
+	else if(op == "m_eq") { Matrix &A = rd_mat(r), &B = rd_mat(r); o.i((A == B) ? 1 : 0); }
+	else if(op == "m_at") { Matrix& A = rd_mat(r); long i = r.integer(), j = r.integer(); o.f(A[(unsigned int) i][j]); }
+	else if(op == "m_atc") { const Matrix& A = rd_mat(r); long i = r.integer(), j = r.integer(); o.f(A[(unsigned int) i][j]); }
+	else if(op == "v_at") { Vector& v = rd_vec(r); long i = r.integer(); o.f(v[(unsigned int) i]); }
+	else if(op == "v_atc") { const Vector& v = rd_vec(r); long i = r.integer(); o.f(v[(unsigned int) i]); }
+	else if(op == "m_show") { Matrix& A = rd_mat(r); put(o, A); }
+	else if(op == "v_show") { Vector& v = rd_vec(r); put(o, v); }
 	else if(op == "identity") { long k = r.integer(); put(o, Identity_Matrix((unsigned int) k)); }
 	else if(op == "mat_diag") { std::vector<double> d = r.list(); put(o, Matrix(d)); }
 	else if(op == "mat_fill") { long a = r.integer(), b = r.integer(); double e = r.num(); put(o, Matrix((unsigned int) a, (unsigned int) b, e)); }
@@ -206,34 +258,34 @@ static void handler(vh::Reader& r, vh::Out& o)
 	// ---- the laws of the property, evaluated on the implementation's own results ----
 	else if(op == "law_trprod")
 	{
-		Matrix A = rd_mat(r), B = rd_mat(r);
+		Matrix &A = rd_mat(r), &B = rd_mat(r);
 		put(o, (A * B).Transpose());
 		put(o, B.Transpose() * A.Transpose());
 	}
 	else if(op == "law_mulid")
 	{
-		Matrix A = rd_mat(r);
+		Matrix& A = rd_mat(r);
 		put(o, A * Identity_Matrix(A.Columns()));
 		put(o, Identity_Matrix(A.Rows()) * A);
 	}
-	else if(op == "law_trtr") { Matrix A = rd_mat(r); put(o, A.Transpose().Transpose()); }
+	else if(op == "law_trtr") { Matrix& A = rd_mat(r); put(o, A.Transpose().Transpose()); }
 	else if(op == "law_matvec")
 	{
-		Matrix A = rd_mat(r);
-		Vector v = rd_vec(r);
+		Matrix& A = rd_mat(r);
+		Vector& v = rd_vec(r);
 		put(o, A * v);
 		put(o, A * column_matrix(v));
 	}
 	else if(op == "law_vecmat")
 	{
-		Vector v = rd_vec(r);
-		Matrix A = rd_mat(r);
+		Vector& v = rd_vec(r);
+		Matrix& A = rd_mat(r);
 		put(o, v * A);
 		put(o, row_matrix(v) * A);
 	}
 	else if(op == "law_dotouter")
 	{
-		Vector u = rd_vec(r), v = rd_vec(r);
+		Vector &u = rd_vec(r), &v = rd_vec(r);
 		o.f(u.Dot(v));
 		put(o, row_matrix(u) * column_matrix(v));
 		put(o, Outer_Vector_Product(u, v));
@@ -241,7 +293,7 @@ static void handler(vh::Reader& r, vh::Out& o)
 	}
 	else if(op == "law_cross")
 	{
-		Vector u = rd_vec(r), v = rd_vec(r);
+		Vector &u = rd_vec(r), &v = rd_vec(r);
 		Vector w = u.Cross(v);
 		put(o, w);
 		o.f(u.Dot(w));
@@ -249,5 +301,40 @@ static void handler(vh::Reader& r, vh::Out& o)
 	}
 	else
 		o.w("HARNESSERR unknown_op");
+}
+static void handler(vh::Reader& r, vh::Out& o)
+{
+	std::string op = r.word();
+	g_hist		   = false;
+	g_ms.clear();
+	g_vs.clear();
+	g_mtmp.clear();
+	g_vtmp.clear();
+	if(op == "hist")
+	{
+		g_hist = true;
+		op	   = r.word();
+	}
+	if(op != "life")
+	{
+		dispatch(op, r, o);
+		return;
+	}
+	// life NM T_1 .. T_NM NV L_1 .. L_NV K step_1 .. step_K;  step = m k <mutator> | v k <mutator> | o <op> <args>
+	long nm = r.integer();
+	for(long k = 0; k < nm; k++)
+		g_ms.emplace_back(new Matrix(r.table()));
+	long nv = r.integer();
+	for(long k = 0; k < nv; k++)
+		g_vs.emplace_back(new Vector(r.list()));
+	long steps = r.integer();
+	for(long s = 0; s < steps; s++)
+	{
+		std::string w = r.word();
+		if(w == "m") { long k = r.integer(); live_mat(k); mat_step(g_ms[k], r); }
+		else if(w == "v") { long k = r.integer(); live_vec(k); vec_step(g_vs[k], r); }
+		else if(w == "o") { std::string f = r.word(); dispatch(f, r, o); o.w("|"); }
+		else { std::fprintf(stderr, "unknown life step\n"); std::abort(); }
+	}
 }
 int main(int argc, char** argv) { return vh::run(argc, argv, handler); }
